@@ -322,6 +322,37 @@ func TestVerifToFileChild(t *testing.T) {
 			}
 		case "tick":
 			tick()
+		case "ext":
+			// another process drops a file into the output dir under the very name the open work
+			// file will be moved to (or, without a work dir, the name of the next revision)
+			if f.out == nil || !hasRev {
+				continue
+			}
+			rev := int(f.rev) + int(ev.Adv)
+			if !sc.WorkDir {
+				rev++
+			}
+			name := strings.Replace(f.filename, "<REV>", fmt.Sprintf("-%06d", rev), -1)
+			full := filepath.Join(root, "o", name)
+			if _, err := os.Stat(full); err == nil {
+				continue
+			}
+			payload, _ := hex.DecodeString(ev.Body)
+			content := payload
+			if sc.GZIP {
+				var zb bytes.Buffer
+				zw := gzip.NewWriter(&zb)
+				zw.Write(payload)
+				zw.Close()
+				content = zb.Bytes()
+			}
+			say(fmt.Sprintf("tf ext o %s %d %s", vfHex([]byte(f.filename)), rev, vfHex(payload)))
+			fmt.Fprintf(res, "EXTB\n") // syscall leg: the harness' own file creation is not the tool's
+			if err := os.WriteFile(full, content, 0o644); err != nil {
+				t.Fatal(err)
+			}
+			fmt.Fprintf(res, "EXTE\n")
+			ans(state())
 		case "hup":
 			say("tf hup")
 			f.hupChan <- true
@@ -388,8 +419,13 @@ func vfE8GenScript(r *vfRand) vfE8Script {
 			sc.Events = append(sc.Events, vfE8Event{Kind: "adv", Adv: adv})
 		case k < 17:
 			sc.Events = append(sc.Events, vfE8Event{Kind: "tick"})
-		case k < 19:
+		case k < 18:
 			sc.Events = append(sc.Events, vfE8Event{Kind: "hup"})
+		case k < 19:
+			sc.Events = append(sc.Events, vfE8Event{Kind: "ext", Adv: int64(r.Intn(2)), Body: hex.EncodeToString(append([]byte("ext|"), r.Bytes(r.Intn(12))...))})
+			if r.Intn(2) == 0 {
+				sc.Events = append(sc.Events, vfE8Event{Kind: "ext", Adv: 1, Body: hex.EncodeToString([]byte("ext2|"))})
+			}
 		default:
 			if i > n/2 {
 				sc.Events = append(sc.Events, vfE8Event{Kind: "termstop"})
@@ -518,7 +554,7 @@ func vfE8RunCase(dir string, idx int, sc vfE8Script, strace bool) vfE8Result {
 	// no-overwrite oracle: pre-existing files keep their bytes as a prefix (exclusive mode: unchanged)
 	for _, op := range out.ops {
 		w := strings.Fields(op)
-		if len(w) == 6 && w[1] == "pre" {
+		if len(w) == 6 && (w[1] == "pre" || w[1] == "ext") {
 			tm, _ := hex.DecodeString(w[3])
 			var rev int
 			fmt.Sscanf(w[4], "%d", &rev)
